@@ -246,8 +246,8 @@ pub fn points(tier: Tier) -> Vec<P19> {
     let mut v = vec![];
     let amps: Vec<u64> = tier.pick(vec![1, 10, 100, 5000, 1_000_000], vec![1, 2, 10, 50, 100, 1000, 5000, 100_000, 1_000_000]);
     let decsets: Vec<Vec<u8>> = tier.pick(
-        vec![vec![6, 6], vec![6, 18], vec![18, 6], vec![8, 6], vec![12, 12], vec![18, 18], vec![6, 12, 18], vec![6, 6, 6], vec![6, 6, 6, 6], vec![6, 12, 18, 8]],
-        vec![vec![6, 6], vec![6, 18], vec![18, 6], vec![8, 6], vec![6, 8], vec![12, 12], vec![18, 18], vec![0, 6], vec![6, 12], vec![6, 12, 18], vec![18, 12, 6], vec![6, 6, 6], vec![18, 18, 18], vec![6, 6, 6, 6], vec![6, 12, 18, 8], vec![18, 6, 18, 6]],
+        vec![vec![6, 6], vec![6, 18], vec![18, 6], vec![8, 6], vec![12, 12], vec![18, 18], vec![6, 12, 18], vec![6, 6, 6], vec![6, 18, 6], vec![6, 6, 6, 6], vec![6, 12, 18, 8], vec![6, 18, 8, 6]],
+        vec![vec![6, 6], vec![6, 18], vec![18, 6], vec![8, 6], vec![6, 8], vec![12, 12], vec![18, 18], vec![0, 6], vec![6, 12], vec![6, 12, 18], vec![18, 12, 6], vec![6, 6, 6], vec![18, 18, 18], vec![6, 18, 6], vec![18, 6, 18], vec![6, 6, 6, 6], vec![6, 12, 18, 8], vec![18, 6, 18, 6], vec![6, 18, 8, 6]],
     );
     let mags: Vec<(u128, i32)> = tier.pick(vec![(2, -3), (5, -1), (3, 0), (9, 0), (100, 0), (12_345, 0), (1, 6), (1, 9), (1, 12)], vec![(2, -3), (7, -3), (5, -1), (3, 0), (9, 0), (31, 0), (100, 0), (777, 0), (12_345, 0), (1, 5), (1, 6), (3, 7), (1, 9), (1, 12), (1, 15)]);
     let skews: Vec<u128> = tier.pick(vec![1, 3, 30, 1000], vec![1, 2, 3, 10, 30, 100, 1000]);
